@@ -26,6 +26,16 @@ def specs(tier):
     return [hist_spec(n, q, timeout=300 if tier == "quick" else 1800) for (n, q) in sizes]
 
 
+def state_specs():
+    return [HarnessSpec("c03::c03_state_indep_n%d" % n,
+                        "AUXILIARY (stronger than the property, uses the cfg-guarded accessor): for all ends[%d] and all non-NaN l1, l2, x the "
+                        "evaluator's state (segments skipped, segments ahead, last-argument bits) after the history (l1, l2, x) equals its state "
+                        "after (x) alone -- hence, by induction, after any history; together with the Q=3 harnesses this extends the bounded "
+                        "claim to histories of every length for this segment count" % n,
+                        FUNCS + ["PiecewiseEvaluator::verif_state (hook)"], {"segments": n, "unwind": n + 3}, timeout_s=1800, mem_gb=14,
+                        role="history-state-independence", aux=True) for n in (2, 3, 4)]
+
+
 def run(rep, tier):
     rep.explanation = ("Bounded model checking of the stateful evaluator against direct evaluation over all histories "
                        "of symbolic non-NaN f64 queries for each concrete (segments, history length).")
@@ -33,6 +43,11 @@ def run(rep, tier):
                                                             [(1, 3), (2, 3), (3, 3), (4, 4), (5, 3), (3, 5)])],
                   "outside": "longer histories / more segments (see history-independence obligation in thorough tier)"}
     run_e1(rep, specs(tier))
+    if tier == "thorough":
+        obs = run_e1(rep, state_specs(), hook=True)
+        ok = [o for o in obs if o.status == "discharged"]
+        rep.notes.append("history-independence of the evaluator state: %d/%d auxiliary harnesses discharged%s" % (
+            len(ok), len(obs), "" if len(ok) == len(obs) else " -- NOT established; the claim is limited to the listed history lengths"))
 
 
 def replay(path):
